@@ -128,7 +128,7 @@ def main():
         "setup_cmd": "bin/setup",
         "hooks": {
             "guard": "verif",
-            "enable": "no source hooks: every check regenerates a `go build -overlay` file map from /repo's working tree (bin/mkoverlay.py) that swaps in the deterministic buffer pool / sync.Pool / hash shims and adds read-only state-dump files; the build tag `verif` is reserved and unused",
+            "enable": "no source hooks: every check regenerates a `go build -overlay` file map from /repo's working tree (bin/mkoverlay.py) that swaps in the deterministic buffer pool / sync.Pool / span / hash shims (private state of the code under test is read by reflection, nothing private is named); the build tag `verif` is reserved and unused",
             "baseline_off_cmd": "cd /repo && %s go test -vet=off -count=1 ./..." % GOENV,
             "source_commits": [],
             "add_only": True,
